@@ -295,6 +295,35 @@ void runModel(NifFile& nif, const std::string& what, Rng& rng, int rounds, int m
 		for (auto t : ta) { t = normTri(t); A.insert({t.p1, t.p2, t.p3}); }
 		for (auto t : tb) { t = normTri(t); B.insert({t.p1, t.p2, t.p3}); }
 		if (A != B && !s->HasType<NiTriStrips>()) { R_viol("delete-verts", std::string("reload/triangles/") + s->GetBlockName(), what + ": triangle set differs after reload"); return; }
+		// per-vertex attributes: what the model holds after the deletions is what the file gives back (NiGeometry data is stored as
+		// floats: exact; BSTriShape vertex data is quantised: positions/UVs to half floats unless full precision, vectors to bytes)
+		{
+			State a = capture(nif, s), b = capture(re, m);
+			bool bs = a.isBS;
+			auto cmp3 = [&](const std::vector<Vector3>& x, const std::vector<Vector3>& y, float tolAbs, float tolRel) {
+				if (x.size() != y.size()) return false;
+				for (size_t i = 0; i < x.size(); i++) {
+					float mag = std::max({std::fabs(x[i].x), std::fabs(x[i].y), std::fabs(x[i].z)});
+					if (!(x[i].DistanceTo(y[i]) <= tolAbs + tolRel * mag)) return false;
+				}
+				return true;
+			};
+			std::string kind = s->GetBlockName();
+			const char* bad = nullptr;
+			if (!cmp3(a.verts, b.verts, bs ? 1e-3f : 0.0f, bs ? 2e-3f : 0.0f)) bad = "positions";
+			else if (a.hasN != b.hasN || (a.hasN && !cmp3(a.normals, b.normals, bs ? 2e-2f : 0.0f, 0.0f))) bad = "normals";
+			else if (a.hasT != b.hasT || (a.hasT && (!cmp3(a.tangents, b.tangents, bs ? 2e-2f : 0.0f, 0.0f) || !cmp3(a.bitangents, b.bitangents, bs ? 2e-2f : 0.0f, bs ? 2e-3f : 0.0f)))) bad = "tangents";
+			else if (a.hasUV != b.hasUV || a.uvs.size() != b.uvs.size()) bad = "uvs";
+			else if (a.hasC != b.hasC || a.colors.size() != b.colors.size()) bad = "colors";
+			if (!bad && a.hasUV)
+				for (size_t i = 0; i < a.uvs.size(); i++)
+					if (std::fabs(a.uvs[i].u - b.uvs[i].u) > (bs ? 2e-3f * (1.0f + std::fabs(a.uvs[i].u)) : 0.0f) || std::fabs(a.uvs[i].v - b.uvs[i].v) > (bs ? 2e-3f * (1.0f + std::fabs(a.uvs[i].v)) : 0.0f)) { bad = "uvs"; break; }
+			if (!bad && a.hasC)
+				for (size_t i = 0; i < a.colors.size(); i++)
+					if (std::fabs(a.colors[i].r - b.colors[i].r) > (bs ? 5e-3f : 0.0f) || std::fabs(a.colors[i].g - b.colors[i].g) > (bs ? 5e-3f : 0.0f) || std::fabs(a.colors[i].b - b.colors[i].b) > (bs ? 5e-3f : 0.0f) || std::fabs(a.colors[i].a - b.colors[i].a) > (bs ? 5e-3f : 0.0f)) { bad = "colors"; break; }
+			if (bad) { R_viol("delete-verts", std::string("reload/") + bad + "/" + kind, what + ": " + bad + " of shape '" + s->name.get() + "' read back from the saved file differ from the model after the deletions"); return; }
+			R_stat("shapes_compared_attribute_by_attribute_after_reload");
+		}
 		k++;
 	}
 	R_cover(what);
